@@ -191,6 +191,9 @@ func c08Menu(w *wworld.World) []string {
 		for ti, t := range w.Tokens {
 			if t.Kind == "plain" || (t.Kind == "p2pk" && t.To == i) || t.Kind == "htlc" {
 				ops = append(ops, fmt.Sprintf("recv|%d|%d|0", i, ti))
+				if t.Kind == "plain" {
+					ops = append(ops, fmt.Sprintf("recvdup|%d|%d|0", i, ti))
+				}
 				if t.Mint != ww.Default {
 					ops = append(ops, fmt.Sprintf("recv|%d|%d|1", i, ti))
 				}
